@@ -230,7 +230,7 @@ func genCase(rt *rapid.T) *Case {
 				f.Header = "// Package docs.\n"
 			case 2:
 				if !skip("c15-constraint-after-comment") {
-					f.Header = rx.Pick(rt, "hdrcomment", "// Copyright someone.\n", "// Generator for the tables of the util package.\n", "// This package file is part of a package.\n// package main\n") + "\n//go:build " + genConstraint(rt, true, 0) + "\n\n"
+					f.Header = rx.Pick(rt, "hdrcomment", "// Copyright someone.\n", "// Generator for the tables of the util package.\n", "// This package file is part of a package.\n// package main\n", "/* Copyright someone. */\n", "/*\n * Licence of the package:\n * package main\n */\n", "/* a */ /* b\n*/ // c\n") + "\n//go:build " + genConstraint(rt, true, 0) + "\n\n"
 				}
 			}
 			p.Files = append(p.Files, f)
@@ -255,7 +255,7 @@ func genCase(rt *rapid.T) *Case {
 			hdr := "//go:build " + genConstraint(rt, false, 0) + "\n\n"
 			if rx.Chance(rt, "afterComment", 1, 2) && !skip("c15-constraint-after-comment") {
 				// the comment above the constraint may mention the word package
-				hdr = rx.Pick(rt, "xhdrcomment", "// Copyright someone.\n", "// Generator for the tables of the util package.\n", "// This package file is part of a package.\n// package main\n") + "\n" + hdr
+				hdr = rx.Pick(rt, "xhdrcomment", "// Copyright someone.\n", "// Generator for the tables of the util package.\n", "// This package file is part of a package.\n// package main\n", "/* Copyright someone. */\n", "/*\n * Licence of the package:\n * package main\n */\n", "/* a */ /* b\n*/ // c\n") + "\n" + hdr
 			}
 			// an excluded file is never parsed: it may use Go that goatlang does not support (generics, channels, cgo)
 			p.Files = append(p.Files, File{Name: rx.Pick(rt, "xname", "excl.go", "other_os.go", "00.go"), Ignored: true, Header: hdr, VarMarks: 1, InitFuncs: 1, Unsupported: rapid.Bool().Draw(rt, "unsupported")})
